@@ -26,6 +26,8 @@ func init() {
 			{Name: "ignore per-route transport", File: "proxy/http_proxy.go", Old: "if t.Transport != nil {\n\t\ttr = t.Transport\n\t} else if", New: "if", Expect: "C19.F4"},
 			{Name: "drop ErrorHandler", File: "proxy/http_handler.go", Old: "ErrorHandler:  httpProxyErrorHandler,", New: "", Expect: "C19.F5"},
 			{Name: "502 on timeout", File: "proxy/http_handler.go", Old: "statusCode = http.StatusGatewayTimeout", New: "statusCode = http.StatusBadGateway", Expect: "C19.F5"},
+			{Name: "deadline errors classified as client disconnects before the timeout test", File: "proxy/http_handler.go", Old: "\tif e, ok := err.(net.Error); ok {", New: "\tif err == context.DeadlineExceeded {\n\t\tstatusCode = StatusClientClosedRequest\n\t} else if e, ok := err.(net.Error); ok {", Expect: "C19.F5"},
+			{Name: "benign: canceled tested before the timeout", File: "proxy/http_handler.go", Old: "\tif e, ok := err.(net.Error); ok {", New: "\tif err == context.Canceled {\n\t\tstatusCode = StatusClientClosedRequest\n\t} else if e, ok := err.(net.Error); ok {", Expect: ""},
 			{Name: "benign: local alias for cfg.Proxy", File: "transport/transport.go", Old: "\treturn &http.Transport{", New: "\tp := cfg.Proxy\n\t_ = p\n\treturn &http.Transport{", Expect: ""},
 		},
 	})
@@ -161,6 +163,7 @@ func runC19(c *Ctx) {
 	runC19F3(c)
 	runC19F4(c, newT)
 	runC19F5(c)
+	runC19F5b(c)
 }
 
 // derivesPath: the stored value is a conversion/arith-free derivation of a load with the given access path.
